@@ -62,7 +62,15 @@ type S3 struct {
 	Code  int `json:"Label"`
 }
 
-var structTypes = map[string]reflect.Type{"S1": reflect.TypeOf(S1{}), "S2": reflect.TypeOf(S2{}), "S3": reflect.TypeOf(S3{})}
+// S4: root data for the data-source precedence stream
+type S4 struct {
+	A  string `json:"a"`
+	B  int    `json:"b"`
+	C  string `json:"c"`
+	Dd string
+}
+
+var structTypes = map[string]reflect.Type{"S1": reflect.TypeOf(S1{}), "S2": reflect.TypeOf(S2{}), "S3": reflect.TypeOf(S3{}), "S4": reflect.TypeOf(S4{})}
 
 func VNil() Val              { return Val{K: "nil"} }
 func VBool(b bool) Val       { return Val{K: "bool", B: b} }
